@@ -22,6 +22,14 @@ LIBC = {
     'isdigit': lambda v: int((v & 0xff) in C_DIGIT and 0 <= v < 256),
     'isspace': lambda v: int((v & 0xff) in C_SPACE and 0 <= v < 256),
     'isxdigit': lambda v: int((v & 0xff) in C_XDIGIT and 0 <= v < 256),
+    'isfinite': lambda v: int(v == v and v not in (float('inf'), float('-inf'))),
+    'std::isfinite': lambda v: int(v == v and v not in (float('inf'), float('-inf'))),
+    '__builtin_isfinite': lambda v: int(v == v and v not in (float('inf'), float('-inf'))),
+    'finite': lambda v: int(v == v and v not in (float('inf'), float('-inf'))),
+    '_finite': lambda v: int(v == v and v not in (float('inf'), float('-inf'))),
+    'isnan': lambda v: int(v != v), 'std::isnan': lambda v: int(v != v), '__builtin_isnan': lambda v: int(v != v),
+    'isinf': lambda v: int(v in (float('inf'), float('-inf'))), 'std::isinf': lambda v: int(v in (float('inf'), float('-inf'))),
+    '__builtin_isinf': lambda v: int(v in (float('inf'), float('-inf'))),
     'toupper': lambda v: v - 32 if 97 <= v <= 122 else v,
     'tolower': lambda v: v + 32 if 65 <= v <= 90 else v,
 }
